@@ -258,7 +258,7 @@ func buildServerStackVia(w *world, gt *gate) (*stack, func(ctx context.Context, 
 			be.Calendars = append(be.Calendars, cal)
 		}
 		conv := func(o *nObj) caldav.CalendarObject {
-			return caldav.CalendarObject{Path: o.Path, ModTime: o.Mod, ContentLength: o.Len, ETag: o.ETag, Data: o.Cal.calendar()}
+			return caldav.CalendarObject{Path: o.Path, ModTime: o.libTime(), ContentLength: o.Len, ETag: o.ETag, Data: o.Cal.calendar()}
 		}
 		for i := range w.Objs {
 			if w.Objs[i].Fail == 0 {
@@ -272,7 +272,7 @@ func buildServerStackVia(w *world, gt *gate) (*stack, func(ctx context.Context, 
 			}
 		}
 		st.setPutRes = func() {
-			be.PutResult = &caldav.CalendarObject{Path: w.PutRes.Path, ETag: w.PutRes.ETag, ModTime: w.PutRes.Mod, ContentLength: w.PutRes.Len}
+			be.PutResult = &caldav.CalendarObject{Path: w.PutRes.Path, ETag: w.PutRes.ETag, ModTime: w.PutRes.libTime(), ContentLength: w.PutRes.Len}
 		}
 		ip := &doubles.InProc{Handler: &caldav.Handler{Backend: be}, Record: true}
 		var hc webdav.HTTPClient = ip
@@ -305,7 +305,7 @@ func buildServerStackVia(w *world, gt *gate) (*stack, func(ctx context.Context, 
 		be.Books = append(be.Books, ab)
 	}
 	conv := func(o *nObj) carddav.AddressObject {
-		return carddav.AddressObject{Path: o.Path, ModTime: o.Mod, ContentLength: o.Len, ETag: o.ETag, Card: o.Card.toVcard()}
+		return carddav.AddressObject{Path: o.Path, ModTime: o.libTime(), ContentLength: o.Len, ETag: o.ETag, Card: o.Card.toVcard()}
 	}
 	for i := range w.Objs {
 		if w.Objs[i].Fail == 0 {
@@ -319,7 +319,7 @@ func buildServerStackVia(w *world, gt *gate) (*stack, func(ctx context.Context, 
 		}
 	}
 	st.setPutRes = func() {
-		be.PutResult = &carddav.AddressObject{Path: w.PutRes.Path, ETag: w.PutRes.ETag, ModTime: w.PutRes.Mod, ContentLength: w.PutRes.Len}
+		be.PutResult = &carddav.AddressObject{Path: w.PutRes.Path, ETag: w.PutRes.ETag, ModTime: w.PutRes.libTime(), ContentLength: w.PutRes.Len}
 	}
 	ip := &doubles.InProc{Handler: &carddav.Handler{Backend: be}, Record: true}
 	var hc webdav.HTTPClient = ip
